@@ -394,6 +394,60 @@ func run1(t *testing.T, c Case) (res Result) {
 			}
 			w.checkAll("after-expired-commit")
 			res.Class = "expiry-ok"
+		case "holder-leaves-wal":
+			// The holder switches the database back to a rollback journal (PRAGMA journal_mode=DELETE): the forwarded
+			// transaction rewrites page 1 and the primary's database is in rollback mode from then on. The primary is
+			// still halted: a local connection - which follows the rollback protocol now - commits nothing.
+			if !w.wal {
+				res.Class = "n/a"
+				return
+			}
+			if err := w.acquire(); err != nil {
+				viol("C13/acquire-failed", "acquire: %v", err)
+				return
+			}
+			{
+				hc := pager.NewConn(R.M, "db", 405, ps)
+				err := hc.LeaveWAL()
+				var x pager.RTxResult
+				if err == nil {
+					x = hc.RunRTx(pager.RTx{FromWAL: true, Final: "DELETE", Outcome: "commit"}, w.img)
+					err = x.Err
+				}
+				hc.Close()
+				if err != nil || !x.Committed {
+					viol("C13/forwarded-commit-failed", "the holder could not leave WAL mode: %v at %s", err, x.ErrStep)
+					return
+				}
+				w.img = x.Intended
+			}
+			if pp, rp := posOf(P), posOf(R); pp != rp {
+				viol("C13/ack-before-apply", "the holder's commit returned with R=%s while the primary is at %s", rp, pp)
+			}
+			before := posOf(P)
+			{
+				lc := pager.NewConn(P.M, "db", 406, ps)
+				tries := 0
+				lc.Busy = func() bool { tries++; time.Sleep(500 * time.Microsecond); return tries < 4 }
+				x := lc.RunRTx(pager.RTx{Mods: []uint32{3}, Final: "DELETE", Outcome: "commit"}, w.img)
+				lc.Close()
+				if x.Committed || posOf(P) != before {
+					viol("C13/local-commit-while-halted", "after the holder switched the database to a rollback journal a local transaction committed on the primary while the halt lock is held (primary %s -> %s)", before, posOf(P))
+					return
+				}
+			}
+			w.wal = false
+			if ok, err, step := w.txOn(R, 3, []uint32{2}); !ok {
+				viol("C13/forwarded-commit-failed", "the holder's next commit failed at %q: %v", step, err)
+			}
+			if err := w.release(); err != nil {
+				viol("C13/release-failed", "releasing the halt lock failed: %v", err)
+			}
+			if ok, err, step := w.txOn(P, 20, []uint32{3}); !ok {
+				viol("C13/writer-after-release", "after release a local transaction on the primary failed at %q: %v", step, err)
+			}
+			w.checkAll("holder-leaves-wal")
+			res.Class = "holder-leaves-wal-ok"
 		case "expiry-after-holder-commit":
 			// The holder commits under the lock (in WAL mode its pages stay in its own log), then the lock expires on the
 			// primary without the holder being told. The next transaction comes from the primary and touches other pages:
@@ -1500,7 +1554,7 @@ func TestCheck(t *testing.T) {
 		}
 		cases = append(cases, Case{Scenario: "lagging-acquire", WAL: wal, Variant: 0}, Case{Scenario: "lagging-acquire", WAL: wal, Variant: 1},
 			Case{Scenario: "acquire-timeout", WAL: wal}, Case{Scenario: "expiry-snapshot", WAL: wal}, Case{Scenario: "holder-promoted", WAL: wal},
-			Case{Scenario: "halt-over-hot-journal", WAL: wal}, Case{Scenario: "expiry-after-holder-commit", WAL: wal},
+			Case{Scenario: "halt-over-hot-journal", WAL: wal}, Case{Scenario: "expiry-after-holder-commit", WAL: wal}, Case{Scenario: "holder-leaves-wal", WAL: wal},
 			Case{Scenario: "release-during-forwarded-apply", WAL: wal, Variant: 0}, Case{Scenario: "release-during-forwarded-apply", WAL: wal, Variant: 1},
 			Case{Scenario: "release-during-forwarded-apply", WAL: wal, Variant: 2}, Case{Scenario: "release-during-forwarded-apply", WAL: wal, Variant: 3},
 			Case{Scenario: "release-during-commit", WAL: wal, Variant: 0}, Case{Scenario: "release-during-commit", WAL: wal, Variant: 1}, Case{Scenario: "release-during-commit", WAL: wal, Variant: 2})
